@@ -166,7 +166,8 @@ ProbeSet(t, rich) ==
     [] t.k = "enumeration" -> RangeOf(t.enums) \cup {T("three"), << >>, T("One"), T("on"), T("onee"), T("0"), T(" one")}
     [] t.k = "boolean" -> {T("true"), T("false"), T("TRUE"), T("True"), T("1"), T("0"), << >>, T("true "), T("t"), T("yes")}
     [] t.k = "empty" -> {<< >>, T("x"), T("true"), T(" ")}
-    [] t.k = "identityref" -> t.acc \cup t.unj \cup {T("b0"), T("a:b0"), T("other"), T("b:other2"), T("nope"), T("b:nope"), << >>, T("d1 "), T("c:d1"), T(":d1"), T("b:"), T("b:e1:x")}
+    [] t.k = "identityref" -> t.acc \cup t.unj \cup {T("b0"), T("a:b0"), T("other"), T("b:other2"), T("nope"), T("b:nope"), << >>, T("d1 "), T("c:d1"), T(":d1"), T("b:"), T("b:e1:x"),
+                                              T("tcp"), T("a:tcp"), T("b:tcp"), T("udp"), T("b:udp"), T("tcp-ext"), T("b:tcp-ext"), T("tcp-fast"), T("a:tcp-fast"), T("b:udp-lite"), T("udp6"), T("b:d1"), T("b:d9"), T("d9")}
     [] t.k = "union" -> (UNION {ProbeSet(t.members[i], rich) : i \in 1..Len(t.members)}) \cup {T("zz"), << >>}
     [] OTHER -> {}
 ProbeRec(t, v) ==
@@ -242,9 +243,15 @@ StrDefFam ==
 \* group 7: restriction kinds per base type, other kinds with defaults
 E3 == <<T("one"), T("two"), T("t-3")>>
 En(L) == [L EXCEPT !.enums = E3]
-Idents == << [m |-> "a", n |-> "b0", bm |-> "", bn |-> ""], [m |-> "a", n |-> "d1", bm |-> "a", bn |-> "b0"], [m |-> "a", n |-> "d2", bm |-> "a", bn |-> "d1"],
-             [m |-> "b", n |-> "e1", bm |-> "a", bn |-> "b0"], [m |-> "b", n |-> "e2", bm |-> "b", bn |-> "e1"], [m |-> "b", n |-> "e3", bm |-> "a", bn |-> "d2"],
-             [m |-> "a", n |-> "other", bm |-> "", bn |-> ""], [m |-> "b", n |-> "other2", bm |-> "a", bn |-> "other"], [m |-> "b", n |-> "lone", bm |-> "", bn |-> ""] >>
+\* two modules (b imports a); the same local name occurs in both modules under the same base (tcp: both derived
+\* directly; udp, d1: the one in b derived from its namesake in a), with further identities derived from each
+Idn(m, n, bm, bn) == [m |-> m, n |-> n, bm |-> bm, bn |-> bn]
+Idents == << Idn("a", "b0", "", ""), Idn("a", "d1", "a", "b0"), Idn("a", "d2", "a", "d1"),
+             Idn("b", "e1", "a", "b0"), Idn("b", "e2", "b", "e1"), Idn("b", "e3", "a", "d2"),
+             Idn("a", "other", "", ""), Idn("b", "other2", "a", "other"), Idn("b", "lone", "", ""),
+             Idn("a", "tcp", "a", "b0"), Idn("b", "tcp", "a", "b0"), Idn("a", "tcp-fast", "a", "tcp"), Idn("b", "tcp-ext", "b", "tcp"),
+             Idn("a", "udp", "a", "b0"), Idn("b", "udp", "a", "udp"), Idn("b", "udp-lite", "b", "udp"), Idn("a", "udp6", "a", "udp"),
+             Idn("b", "d1", "a", "d1"), Idn("b", "d9", "b", "d1") >>
 IdCh(mod, bm, bn, rest) == [k |-> "identityref", mod |-> mod, lay |-> "top", idents |-> Idents, levels |-> <<[Lv0 EXCEPT !.idbase = [m |-> bm, n |-> bn]]>> \o rest]
 Mem(k, L) == Chain(k, <<L>>)
 U1 == <<Mem("int8", Rg(<<P2(c1, c5)>>)), Mem("string", Ln(<<P1(c2)>>))>>
@@ -293,8 +300,9 @@ DirectOtherFam ==
   {Chain("enumeration", <<En(Lv0)>>), Chain("enumeration", <<En(Lv0), Lv0>>), Chain("boolean", <<Lv0>>), Chain("boolean", <<Lv0, Lv0>>), Chain("empty", <<Lv0>>), Chain("empty", <<Lv0, Lv0>>),
    Chain("union", <<Un(U1)>>), Chain("union", <<Un(U2)>>), Chain("union", <<Un(U3)>>), Chain("union", <<Un(U2), Lv0>>),
    Chain("union", <<Un(<<Mem("union", Un(<<Mem("union", Un(U1)), Mem("empty", Lv0)>>)), Mem("decimal64", [Lv0 EXCEPT !.fd = 1])>>)>>)}
-  \cup {IdCh(m, bm, bn, rest) : m \in {"a", "b"}, bm \in {"a"}, bn \in {"b0", "d1", "d2", "other"}, rest \in {<< >>, <<Lv0>>}}
-  \cup {IdCh("b", "b", bn, << >>) : bn \in {"e1", "e2", "lone"}}
+  \cup {IdCh(m, bm, bn, rest) : m \in {"a", "b"}, bm \in {"a"}, bn \in {"b0", "d1", "d2", "other", "tcp", "udp"}, rest \in {<< >>, <<Lv0>>}}
+  \cup {IdCh("b", "b", bn, << >>) : bn \in {"e1", "e2", "lone", "tcp", "udp", "d1"}}
+  \cup {Relaid(IdCh("a", "a", bn, <<Lv0>>), "xmod") : bn \in {"b0", "udp"}}
   \cup {[k |-> "union", mod |-> "b", lay |-> "top", idents |-> Idents, levels |-> <<Un(<<IdCh("b", "a", "d1", << >>), Mem("int8", Lv0)>>)>>]}
 \* custom error-message / error-app-tag on ranges, lengths and patterns at several levels
 RgM(parts, m, tg) == [Lv0 EXCEPT !.rng = parts, !.rmsg = m, !.rtag = tg]
